@@ -992,7 +992,12 @@ func (c *Context) Exp(d, x *Decimal) (Condition, error) {
 	}
 	var k, r Decimal
 	k.SetFinite(1, t)
-	nc := c.WithPrecision(cp)
+	// p is the working precision of the series. The argument is reduced at
+	// this precision as well: rounding it to cp digits would discard digits
+	// of an operand that has more than cp of them (Exp(9.999499999999999) at
+	// Precision 4 would compute exp(9.999) = 22004 instead of 22015).
+	p := int64(cp) + int64(t) + 2
+	nc := c.WithPrecision(uint32(p))
 	nc.Rounding = RoundHalfEven
 	// The reduced argument and the series terms are much smaller than the
 	// result: the caller's exponent range must not apply to them (with
@@ -1005,7 +1010,6 @@ func (c *Context) Exp(d, x *Decimal) (Condition, error) {
 	}
 	var ra Decimal
 	ra.Abs(&r)
-	p := int64(cp) + int64(t) + 2
 
 	// Stage 3
 	rf, err := ra.Float64()
